@@ -104,7 +104,7 @@ def _job(args):
     with open(ops) as f:
         lines = f.read().split("\n")
     nreq = len(lines) - (1 if lines and lines[-1] == "" else 0)
-    if n != nreq or n == 0:
+    if (n != nreq and len(dis) < 200) or n == 0:      # (the diff stops after 200 disagreements)
         res["findings"].append(dict(kind="stream", config=cname, disable=disable, line="(stream)", impl=None, model=None, batch=[],
                                     text=f"stream incomplete: {n} compared of {nreq} requests; harness exit {r1.returncode} {r1.stderr[-200:]!r}; "
                                          f"driver exit {r2.returncode} {r2.stderr[-200:]!r}; seed {seed}"))
